@@ -1,7 +1,7 @@
 (* C02 -- the Verilog reader yields the circuit the netlist denotes.  Statements only; proofs in Proofs/VerilogProofs.v. *)
 From CG Require Import Verilog.ExprParse.
 From stdpp Require Import strings gmap sets.
-From CG Require Import Types Sem Api Gen.Gen_grammar Verilog.Ast Verilog.Read Verilog.Write Proofs.VerilogProofs Run.Run_C02 Proofs.VerilogReadProofs Proofs.VerilogDenoteProofs Proofs.VerilogBbProofs Proofs.VerilogConvProofs Proofs.VerilogRtProofs Proofs.VerilogSuccProofs Proofs.VerilogPinProofs.
+From CG Require Import Types Sem Api Gen.Gen_grammar Verilog.Ast Verilog.Read Verilog.Write Proofs.VerilogProofs Run.Run_C02 Proofs.VerilogReadProofs Proofs.VerilogDenoteProofs Proofs.VerilogBbProofs Proofs.VerilogConvProofs Proofs.VerilogRtProofs Proofs.VerilogSuccProofs Proofs.VerilogPinProofs Proofs.VerilogSuccBbProofs.
 Open Scope string_scope.
 
 (* (1) obligation on the regenerated rule table of verilog.lark (expression .. primary, named_port_connection,
@@ -181,12 +181,35 @@ Theorem C02_read_denotes_of_success : ∀ rsv bbs m C,
 Proof. exact read_denotes_of_success. Qed.
 Print Assumptions C02_read_denotes_of_success.
 
-(* full statement for whole modules.  Every conjunct of its conclusion is proved for every *successful* read
-   (C02_read_denotes_of_success); success itself is proved for blackbox-free modules under the identifier guard of (7)
-   (C02_read_denotes_full_bbfree).  Not proved: success of the read for modules WITH blackbox instances - as stated here it
-   lacks the identifier guard names_ok / outs_driven of (7), and a synthetic gate name may equal a pin name (a dotted net `x.q`
-   next to an instance `not_x`), in which case add_blackbox raises.  Success is decided per generated module by Run_C02.holds
-   (which evaluates the same guard in_subset and the executable form `denotes` of the conclusion); see docs/C02-handover.md *)
+(* (11) success of the read for modules with blackbox instances, under identifier guards that in_subset does not contain:
+   names_ok (net identifiers non-empty, no leading digit), nodots (no `.` in a net identifier: then no node the reader creates
+   is called like a pin), outs_driven2 (every output is an input, a driven net or a net on a blackbox output pin),
+   bb_items_ok (instance names do not start with a digit, input and output pins of a definition are disjoint), pins_apart (pins of
+   instances with different names are different strings: `a.b`.`c` vs `a`.`b.c`).  Every check of add / connect / add_blackbox
+   passes (Proofs/VerilogSuccBbProofs.v: invariant sinv, bconn_succ, bb_instance_succ, items_succ_x). *)
+Theorem C02_read_succeeds : ∀ rsv bbs m,
+  ports_match m = true → in_subset bbs m = true → names_ok m → nodots m → outs_driven2 bbs m →
+  bb_items_ok rsv bbs m → pins_apart (bb_insts bbs m) → list_to_set (module_ids m) ⊆ rsv → ∃ C, read rsv bbs m = Ok C.
+Proof. exact read_succeeds_bb. Qed.
+Print Assumptions C02_read_succeeds.
+(* (12) the full statement under these guards: the read succeeds and the circuit has the name, registry, pins and denotation of
+   the module (conclusion word for word that of C02_read_denotes_full) *)
+Theorem C02_read_denotes_full_guarded : ∀ rsv bbs m,
+  ports_match m = true → in_subset bbs m = true → names_ok m → nodots m → outs_driven2 bbs m →
+  bb_items_ok rsv bbs m → pins_apart (bb_insts bbs m) → list_to_set (module_ids m) ⊆ rsv →
+  ∃ C, read rsv bbs m = Ok C ∧ c_name C = m_name m ∧
+    c_bbs C = list_to_map ((λ x, (x.1.1, x.1.2)) <$> bb_insts bbs m) ∧
+    (∀ x, x ∈ bb_insts bbs m → bb_ok (c_g C) x = true) ∧
+    (∀ w, consistent (c_g C) w → ∃ x, sat_module m w x) ∧
+    (∀ v x, sat_module m v x → ∃ w, consistent (c_g C) w ∧ ∀ n, n ∈ used_nets m → w n = v n).
+Proof. exact read_denotes_full_guarded. Qed.
+Print Assumptions C02_read_denotes_full_guarded.
+
+(* the statement without the identifier guards: NOT a theorem - `output a; xor g(o, a, a);` is in the subset and the reader raises
+   KeyError (both operands cancel, `a` never becomes a node); an identifier `1a` or `` is refused by add(); a dotted net `x.q` next to
+   an instance `not_x` makes add_blackbox raise.  It is kept as the statement the harness decides per generated module
+   (Run_C02.holds evaluates in_subset and the executable form `denotes` of the conclusion); the generator produces none of the
+   corner cases.  C02_read_denotes_full_guarded is this statement under the guards of (11). *)
 Definition C02_read_denotes_full : Prop := ∀ rsv bbs m,
   ports_match m = true → in_subset bbs m = true → list_to_set (module_ids m) ⊆ rsv →
   ∃ C, read rsv bbs m = Ok C ∧ c_name C = m_name m ∧
@@ -234,3 +257,18 @@ Definition ex_rsv_bb : gset string := list_to_set (module_ids ex_mod_bb).
 Example C02_ex_bb : ports_match ex_mod_bb = true ∧ in_subset [ex_ff] ex_mod_bb = true ∧
   match read ex_rsv_bb [ex_ff] ex_mod_bb with Ok C => denotes [ex_ff] ex_mod_bb C | _ => false end = true.
 Proof. vm_compute. done. Qed.
+(* non-vacuity of the guards of (11)/(12): they hold for the module with a blackbox instance above *)
+Example C02_ex_bb_guards : names_ok ex_mod_bb ∧ nodots ex_mod_bb ∧ outs_driven2 [ex_ff] ex_mod_bb ∧
+  bb_items_ok ex_rsv_bb [ex_ff] ex_mod_bb ∧ pins_apart (bb_insts [ex_ff] ex_mod_bb).
+Proof.
+  split; [|split; [|split; [|split]]].
+  - intros s Hs. revert s Hs. apply Forall_forall. apply (bool_decide_eq_true_1 (Forall good_name (module_nets ex_mod_bb))). vm_compute. reflexivity.
+  - intros s Hs. revert s Hs. apply Forall_forall. apply (bool_decide_eq_true_1 (Forall (λ s, Lint.has_dot s = false) (module_nets ex_mod_bb))). vm_compute. reflexivity.
+  - intros s Hs. revert s Hs. apply Forall_forall.
+    apply (bool_decide_eq_true_1 (Forall (λ s, s ∈ decl_inputs ex_mod_bb ∨ s ∈ (drivers ex_mod_bb).*1 ∨ s ∈ netsL (bb_insts [ex_ff] ex_mod_bb)) (decl_outputs ex_mod_bb))).
+    vm_compute. reflexivity.
+  - unfold bb_items_ok, ex_mod_bb, Md. simpl. repeat constructor; try exact I.
+    apply (bool_decide_eq_true_1 (bb_in ex_ff ## bb_out ex_ff)). vm_compute. reflexivity.
+  - assert (E : ∃ x0, bb_insts [ex_ff] ex_mod_bb = [x0]) by (eexists; vm_compute; reflexivity). destruct E as [x0 ->].
+    intros x y p q ->%elem_of_list_singleton ->%elem_of_list_singleton Hne. done.
+Qed.
